@@ -1,6 +1,6 @@
 use emmylua_parser::{
-    LuaAstNode, LuaClosureExpr, LuaLiteralExpr, LuaParseErrorKind, LuaSyntaxKind, LuaSyntaxToken,
-    LuaTokenKind, float_token_value, int_token_value,
+    LuaAstNode, LuaClosureExpr, LuaLanguageLevel, LuaLiteralExpr, LuaParseErrorKind, LuaSyntaxKind,
+    LuaSyntaxToken, LuaTokenKind, float_token_value, int_token_value,
 };
 
 use crate::{DiagnosticCode, LuaSignatureId, SemanticModel};
@@ -49,7 +49,7 @@ impl Checker for SyntaxErrorChecker {
                         }
                     }
                     LuaTokenKind::TkString => {
-                        if let Err(err) = check_normal_string_error(&token) {
+                        if let Err(err) = check_normal_string_error(&token, context.config.level) {
                             context.add_diagnostic(
                                 DiagnosticCode::SyntaxError,
                                 token.text_range(),
@@ -69,7 +69,10 @@ impl Checker for SyntaxErrorChecker {
 }
 
 // this function is like string_token_value, but optimize for performance
-fn check_normal_string_error(string_token: &LuaSyntaxToken) -> Result<(), String> {
+fn check_normal_string_error(
+    string_token: &LuaSyntaxToken,
+    level: LuaLanguageLevel,
+) -> Result<(), String> {
     let text = string_token.text();
     if text.len() < 2 {
         return Ok(());
@@ -112,8 +115,14 @@ fn check_normal_string_error(string_token: &LuaSyntaxToken) -> Result<(), String
                             if let Some('{') = chars.next() {
                                 let unicode_hex =
                                     chars.by_ref().take_while(|c| *c != '}').collect::<String>();
+                                // Lua accepts surrogates here, and since 5.4 any code point below 2^31
+                                let max_code_point = if level >= LuaLanguageLevel::Lua54 {
+                                    0x7FFF_FFFF
+                                } else {
+                                    0x10_FFFF
+                                };
                                 if let Ok(code_point) = u32::from_str_radix(&unicode_hex, 16)
-                                    && std::char::from_u32(code_point).is_none()
+                                    && code_point > max_code_point
                                 {
                                     return Err(t!(
                                         "Invalid unicode escape sequence '\\u{{%{unicode_hex}}}'",
